@@ -111,6 +111,13 @@ CORPUS = [
     ([P("x", "_ a"), P("y", "a ..."), P("z", "... a")], None, {"x": [7, 2], "y": [2, 9, 9], "z": [2]}, []),
     ([P("x", "a", "Int")], None, {"x": [2]}, []),
     ([P("x", "0 a"), P("y", "a 0")], None, {"x": [0, 5], "y": [5, 0]}, []),
+    # empty arrays: a size-0 axis is a binding like any other (0 is not "unbound"), and 1 broadcasts against 0 to 0
+    ([P("x", "*#batch"), P("y", "*batch")], None, {"x": [1], "y": [0]}, []),
+    ([P("x", "*#batch"), P("y", "*#batch"), P("z", "*batch")], None, {"x": [0], "y": [1], "z": [5]}, []),
+    ([P("x", "n"), P("y", "n"), P("z", "n k")], None, {"x": [0], "y": [3], "z": [3, 2]}, []),
+    ([P("x", "n"), P("y", "n k")], None, {"x": [0], "y": [0, 2]}, []),
+    ([P("x", "#n"), P("y", "n"), P("z", "n")], None, {"x": [1], "y": [0], "z": [2]}, []),
+    ([P("x", "*#v a"), P("y", "*v a")], {"dim": "*v", "cat": "Float"}, {"x": [1, 0, 3], "y": [4, 0, 3]}, [4, 0]),
     # ordinary axes on both sides of a variadic one, rank below the number of ordinary axes: no assignment exists
     ([P("x", "batch *mid chan")], None, {"x": [5]}, []),
     ([P("x", "a b *rest c d")], None, {"x": [2, 3, 4]}, []),
